@@ -96,6 +96,19 @@ CHECKS = {
         note='Trusted: scipy.stats densities and numpy.cov(aweights) as reference formulas; rtol 1e-8 for weights and '
              'covariances; degenerate-weight runs are counted, not judged.',
         design_ref='4 C07'),
+    'C10': dict(
+        level='exploration',
+        technique='exhaustive enumeration of a finite family of fitted surrogates x query-point grids x input shapes '
+                  '(definitional and differential oracles), and of all update / sampling-mode / predict / optimize '
+                  'histories up to a depth on the real GPyRegression object',
+        text='For every fitted GP of the family (dimension, evidence size, target function, hyper-parameters initial and '
+             'optimised) the posterior log density is compared with log Phi((h-mu)/sd)+log prior on a full grid including '
+             'exact bounds and points just outside, its gradient with central differences, and the accelerated '
+             'single-point predictions/gradients with GPy; every history of updates (three batch shapes), mode toggles, '
+             'optimisations and predictions must keep evidence as an ordered prefix and never serve outdated cached values.',
+        note='Trusted: GPy as the definition of the GP; tolerances 1e-6 (values) / 1e-5 (gradients) relative to the kernel '
+             'scale, ill-conditioned fits (cond > 1e8) skipped and counted; analytic normal prior.',
+        design_ref='4 C10'),
     'C14': dict(
         level='model_checking',
         technique='explicit-state BFS over model edit histories (add/become/remove/copy/save+load/edits on a copy) on real '
